@@ -43,21 +43,28 @@ def reduction_shape(v, f, bytes_t):
     if it.op != "rev":
         return False, "chunks must be folded from the most significant one (missing .rev()): iterator %s" % Tm.show(it, maxdepth=3)
     m = it.args[0]
-    if m.op != "seq_map_t":
-        return False, "no per-chunk map: %s" % Tm.show(m, maxdepth=3)
-    ch_item, body, src = m.args
+
+    def padded(ch):
+        return mk("from_le_bytes_mod_order", f, mk("store", mk("repeat", lit(0), N8), mk("struct", "core::ops::RangeTo", ("end",), mk("len", ch)), ch))
+    if m.op == "seq_map_t":
+        # chunks.map(pad + reduce).rev().fold(..): the folded item is the reduced chunk
+        ch_item, body, src = m.args
+        if body is not padded(ch_item):
+            return False, "each chunk must be zero-padded on the high side to %d bytes (padded[..x.len()] = x) and reduced; got %s" % (N8, Tm.show(body, maxdepth=6))
+        x_term = item
+    else:
+        # for chunk in chunks.rev() { acc = acc*C + reduce(pad(chunk)) }: the folded item is the raw chunk
+        src = m
+        x_term = padded(item)
     if not (src.op == "chunks" and src.args[0] is bytes_t and src.args[1] is lit(N8)):
         return False, "input must be split into chunks of N_8 = %d bytes of the given byte string; got %s" % (N8, Tm.show(src, maxdepth=4))
-    pad = mk("store", mk("repeat", lit(0), N8), mk("struct", "core::ops::RangeTo", ("end",), mk("len", ch_item)), ch_item)
-    if body is not mk("from_le_bytes_mod_order", f, pad):
-        return False, "each chunk must be zero-padded on the high side to %d bytes (padded[..x.len()] = x) and reduced; got %s" % (N8, Tm.show(body, maxdepth=6))
     if len(accs) != 1 or inits[0] is not felem(f, 0):
         return False, "accumulator must start at 0"
     N = P.Norm(p)
     Cc = pow(2, 8 * N8, p)
-    want = mk("add", mk("mul", accs[0], felem(f, Cc)), item)
+    want = mk("add", mk("mul", accs[0], felem(f, Cc)), x_term)
     if N.pkey(N.poly(nexts[0])) != N.pkey(N.poly(want)):
-        return False, "step must be acc * 2^(8*N_8) + x with the constant 2^%d mod p = %s; got %s" % (8 * N8, hex(Cc), Tm.show(nexts[0], maxdepth=5))
+        return False, "step must be acc * 2^(8*N_8) + x (x = the zero-padded, reduced chunk) with the constant 2^%d mod p = %s; got %s" % (8 * N8, hex(Cc), Tm.show(nexts[0], maxdepth=5))
     return True, "Horner from the most significant %d-byte chunk with multiplier 2^%d mod p" % (N8, 8 * N8)
 
 
